@@ -1,4 +1,4 @@
 SPECIFICATION GenSpec
 CONSTANTS
-  MaxSteps = 9
+  MaxSteps = 11
 CHECK_DEADLOCK FALSE
